@@ -39,6 +39,20 @@ func (ds *dataStore) newDataStoreCommand() *dataStoreCommand {
 	}
 }
 
+// flush removes every key. caller's own database is locked through its
+// re-entrant handle; any other database through a handle of its own.
+func (ds *dataStore) flush(caller *dataStoreCommand) {
+	dsc := caller
+	if dsc == nil || dsc.ds != ds {
+		dsc = ds.newDataStoreCommand()
+	}
+	dsc.lock()
+	defer dsc.unlock()
+
+	ds.data = newRedisDict()
+	ds.data.dirty = true
+}
+
 func (ds *dataStore) getStoreKey(keyName string) (sk *storeKey, exists bool) {
 	val, exists := ds.data.get(keyName)
 	if exists {
